@@ -384,6 +384,12 @@ def run(ck):
                "strategy/TrustRegion/unsuccessful", "strategy/Adaptive/bound_binds", "strategy/TrustRegion/bound_binds",
                "strategy/Adaptive/successful", "strategy/TrustRegion/successful", "strategy/TrustRegion/successful_after_unsuccessful",
                "strategy/TrustRegion/very_successful_after_unsuccessful")
+    if ck.shard == ck.nshards - 1:
+        # realistic driver: the repository's own optimiser / scheduler tests with the step contract attached
+        from .. import attach
+        attach.run_repository_tests(ck, ["lm"], subset="tests/optim")
+        ck.require("suite/ran_under_monitors")
+        ck.floor("suite.lm", 20)
     ck.floor("protocol", 30)
     ck.floor("restore", 10)
     ck.floor("strategy", 20)
